@@ -219,7 +219,7 @@ def gen(run):
 
 
 # ---------------------------------------------------------------- direction B
-ALPHA = 'aBb10. '
+ALPHA = 'aBb10. nN'
 
 
 def random_value(rng, kind):
@@ -272,8 +272,7 @@ def check(run):
                 'overrides / workbook cells / literals and through the public file path; all observations and seeded random pairs judged by TLC '
                 '(Trace_C10). Non-trivial = the two operands differ.')
     run.assumptions += ['cross-kind pairs and blank vs TRUE are out of scope (the statement does not pin them); for two texts and for blank vs a '
-                        'negative number only the laws are demanded', 'pure dates are supplied by override only (openpyxl delivers date-times)',
-                        'texts that Python float() reads as non-finite (nan, inf) are not generated']
+                        'negative number only the laws are demanded', 'pure dates are supplied by override only (openpyxl delivers date-times)']
     fine = 'FALSE' if run.quick else 'TRUE'
     run.tlc('MC_XlCompare', ['INIT Init', 'NEXT Next', f'CONSTANT Fine = {fine}', 'INVARIANT OracleLawful', 'INVARIANT OracleSymmetricScope',
                              'INVARIANT Transitive', 'INVARIANT Reflexive', 'INVARIANT NumbersExact', 'INVARIANT BlankClauses',
